@@ -530,8 +530,12 @@ static Result run_equiv(const json &c) {
     if (names2[size_t(mv)] == g.names[size_t(mv)]) return r;
   } else {
     masses2[size_t(mv)] = m.at("mass").get<double>();
-    // masses enter the id with 8 significant digits: require a change >= 1 %
-    if (!(std::fabs(masses2[size_t(mv)] - g.masses[size_t(mv)]) >= 0.01 * std::fabs(g.masses[size_t(mv)]))) return r;
+    // masses enter the id with 8 significant digits (documented resolution): the change must be visible there
+    if (fmt("%.8g", masses2[size_t(mv)]) == fmt("%.8g", g.masses[size_t(mv)])) {
+      r.cls("mass-change-below-8-significant-digits(not asserted)");
+      return r;
+    }
+    if (std::fabs(masses2[size_t(mv)] - g.masses[size_t(mv)]) < 1e-6 * std::fabs(g.masses[size_t(mv)])) r.cls("mass-change<1e-6-relative");
   }
   r.cls("mutated-" + kind);
   vc::BeadStructure A3 = build(g, g.ids, R.border1, R.eorder1, nullptr, g.names, g.masses);
@@ -756,7 +760,7 @@ static const std::vector<std::string> &name_pool() {
   return p;
 }
 static const std::vector<double> &mass_pool() {
-  static const std::vector<double> p{1.0, 12.0, 14.0, 16.0, 1.008, 12.011};
+  static const std::vector<double> p{1.0, 12.0, 14.0, 16.0, 1.008, 12.011, 95.94, 72.0, 196.967, 35.453, 9.012182};
   return p;
 }
 
@@ -851,6 +855,7 @@ static void add_relabel(json &c) {
   } else {
     double om = c.at("masses")[size_t(v)];
     double nm = om * pick({1.01, 0.99, 2.0, 1.5}) + pick({0.0, 1.0});
+    if (rbool(40)) nm = om * (1.0 + (rbool() ? 1.0 : -1.0) * pick({2e-8, 3e-8, 4e-8, 6e-8, 9e-8, 1e-6, 1e-4}));
     c["mut"] = json{{"v", v}, {"kind", "mass"}, {"mass", nm}};
   }
 }
